@@ -70,7 +70,11 @@ int vnaproperty_import_yaml_from_file(vnaproperty_t **rootptr, FILE *fp,
 		"%s error: empty YAML document", vyml.vyml_filename);
 	goto error;
     }
-    (void)vnaproperty_delete(rootptr, ".");	/* replace any existing content */
+    if (vnaproperty_delete(rootptr, ".") == -1) { /* replace existing content */
+	_vnaproperty_yaml_error(&vyml, VNAERR_SYSTEM,
+		"vnaproperty_delete: %s", strerror(errno));
+	goto error;
+    }
     if (_vnaproperty_yaml_import(&vyml, rootptr, (void *)root) == -1) {
 	goto error;
     }
